@@ -62,9 +62,9 @@ func notifOf(m any) string {
 	case gen.MessageDownProcessID:
 		return fmt.Sprintf("down:name:%s:%s", x.ProcessID.Name, x.Reason)
 	case gen.MessageExitAlias:
-		return fmt.Sprintf("exit:alias:%d:%s", x.Alias.ID[1], x.Reason)
+		return fmt.Sprintf("exit:alias:%v:%s", x.Alias.ID, x.Reason)
 	case gen.MessageDownAlias:
-		return fmt.Sprintf("down:alias:%d:%s", x.Alias.ID[1], x.Reason)
+		return fmt.Sprintf("down:alias:%v:%s", x.Alias.ID, x.Reason)
 	case gen.MessageExitEvent:
 		return fmt.Sprintf("exit:event:%s:%s", x.Event.Name, x.Reason)
 	case gen.MessageDownEvent:
@@ -138,7 +138,7 @@ func targetKey(kind string, t *c04target) string {
 	case "name":
 		return fmt.Sprintf("name:%s", t.name.Name)
 	case "alias":
-		return fmt.Sprintf("alias:%d", t.alias.ID[1])
+		return fmt.Sprintf("alias:%v", t.alias.ID)
 	}
 	return fmt.Sprintf("event:%s", t.event.Name)
 }
